@@ -73,14 +73,15 @@ func (h *hist) opIndex(o op, written map[string]wr, mustAbsent map[string]string
 			written[freshPK] = wr{class: "primary", gap: 5 * time.Second}
 		}
 	case h.tainted(ik, pk, freshPK):
-		fresh := h.sameResult(got, err, want) || (h.db.fail && errors.Is(err, errDB)) || (err != nil && h.anyDown())
+		fresh := h.sameResult(got, err, want) || (h.db.fail && errors.Is(err, errDB)) || (err != nil && h.anyDown()) || h.foreignReturned(o, err)
 		stale := false
 		if cachedI {
 			switch {
 			case preI.Val == "*":
 				stale = err != nil && errors.Is(err, h.st.notFound())
 			case cachedP:
-				stale = h.servedFrom(preP, got, err)
+				// the cleaner's retry may have removed the primary entry since the scan: then the primary query ran
+				stale = h.servedFrom(preP, got, err) || h.tainted(pk) && (h.sameResult(got, err, h.dbRow(pkSlot)) || h.foreignReturned(o, err))
 			default:
 				stale = h.sameResult(got, err, h.dbRow(pkSlot))
 			}
@@ -149,13 +150,32 @@ func (h *hist) opIndex(o op, written map[string]wr, mustAbsent map[string]string
 				h.viol("C06/dberr/not-returned/index-primary", "primary query failed but the index read returned "+resStr(got, err), res)
 			}
 			mustAbsent[pk] = "C06/dberr/cached/index-primary"
+		case h.dbRow(pkSlot) == nil && negShape(o.NF):
+			// negative control on the primary query (see opRead)
+			h.absentRead(o)
+			res["query_reported"] = fmt.Sprint(h.db.lastNF)
+			if !h.foreignReturned(o, err) {
+				h.viol("C06/dberr/not-returned/notfound-"+shapeClass(o.NF), fmt.Sprintf("the primary query for %s failed with %q, which is not the configured not-found error; the index read returned %s", pk, fmt.Sprint(h.db.lastNF), resStr(got, err)), res)
+			}
+			mustAbsent[pk] = "C06/dberr/cached/notfound-" + shapeClass(o.NF)
 		default:
-			if !h.sameResult(got, err, h.dbRow(pkSlot)) {
+			wantP := h.dbRow(pkSlot)
+			ok := h.sameResult(got, err, wantP)
+			if !ok {
 				h.viol("C06/coherence/uncached-read-wrong/index-primary", fmt.Sprintf("index read returned %s, database holds %v for %s", resStr(got, err), h.dbRow(pkSlot), pk), res)
 			} else if !ist.polluted && !h.sameResult(got, err, want) {
 				h.viol("C06/coherence/stale-index-entry", fmt.Sprintf("index read of %s returned %s, database holds %v", ik, resStr(got, err), want), res)
 			}
-			written[pk] = wr{class: "take"}
+			w := wr{class: "take"}
+			if wantP == nil {
+				h.absentRead(o)
+				res["query_reported"] = fmt.Sprint(h.db.lastNF)
+				h.checkConfigured(o, "index-primary", err, res)
+			}
+			if ok && pst.node.outage() == upKind && o.Ctx != ctxPre {
+				w.must, w.shape = "C06/uncached-read/not-cached/"+rowOrNF(wantP, o), o.NF
+			}
+			written[pk] = w
 			pst.polluted = false
 		}
 	default: // index key not cached
@@ -173,12 +193,29 @@ func (h *hist) opIndex(o op, written map[string]wr, mustAbsent map[string]string
 					mustAbsent[freshPK] = "C06/dberr/cached/index-primary"
 				}
 			}
+		case want == nil && negShape(o.NF):
+			// negative control on the index query (see opRead)
+			h.c.Obs("uncached_reads", 1)
+			h.absentRead(o)
+			res["query_reported"] = fmt.Sprint(h.db.lastNF)
+			if !h.foreignReturned(o, err) {
+				h.viol("C06/dberr/not-returned/notfound-"+shapeClass(o.NF), fmt.Sprintf("the index query for %s failed with %q, which is not the configured not-found error; the index read returned %s", ik, fmt.Sprint(h.db.lastNF), resStr(got, err)), res)
+			}
+			mustAbsent[ik] = "C06/dberr/cached/notfound-" + shapeClass(o.NF)
 		case want == nil:
 			h.c.Obs("uncached_reads", 1)
-			if !h.sameResult(got, err, nil) {
+			h.absentRead(o)
+			res["query_reported"] = fmt.Sprint(h.db.lastNF)
+			ok := h.sameResult(got, err, nil)
+			if !ok {
 				h.viol("C06/coherence/uncached-read-wrong/index", fmt.Sprintf("index read of %s returned %s, database holds no such row", ik, resStr(got, err)), res)
 			}
-			written[ik] = wr{class: "index"}
+			h.checkConfigured(o, "index", err, res)
+			w := wr{class: "index"}
+			if ok && ist.node.outage() == upKind && o.Ctx != ctxPre {
+				w.must, w.shape = "C06/uncached-read/not-cached/"+rowOrNF(nil, o), o.NF
+			}
+			written[ik] = w
 			ist.polluted = false
 		default:
 			h.c.Obs("uncached_reads", 1)
@@ -189,8 +226,12 @@ func (h *hist) opIndex(o op, written map[string]wr, mustAbsent map[string]string
 			if !h.sameResult(got, err, want) && !(err != nil && fst.node.setFails()) {
 				h.viol("C06/coherence/uncached-read-wrong/index", fmt.Sprintf("index read of %s returned %s, database holds %v", ik, resStr(got, err), want), res)
 			}
-			written[ik] = wr{class: "index"}
-			written[freshPK] = wr{class: "primary-via-index", gap: 5 * time.Second}
+			wi, wp := wr{class: "index"}, wr{class: "primary-via-index", gap: 5 * time.Second}
+			if err == nil && h.sameResult(got, err, want) && ist.node.outage() == upKind && fst.node.outage() == upKind && o.Ctx != ctxPre {
+				wi.must, wp.must = "C06/uncached-read/not-cached/index-entry", "C06/uncached-read/not-cached/primary-via-index"
+			}
+			written[ik] = wi
+			written[freshPK] = wp
 			ist.polluted = false
 			if err == nil {
 				fst.polluted = false
